@@ -290,6 +290,25 @@ def body_large(rec, c):
     W = build_W(k, c["rows"], c["slots"])
     locks = c["locks"]
     info = f"k={k} small-block={c['b']} kind={c['kind']} busy={[i for i in range(k + 1) if locks[i]]}"
+    # Which blocks does the idle plus matrix decompose into? (rows sorted by reach; a block closes where the number of rows
+    # reaching no further than column c equals c). A block of more than 12 paths that is not row-constant has no exact code
+    # path (Monte-Carlo by design): that happens here when a busy slot takes a path of the small block away and its
+    # remaining paths merge with the big block. Those cases are counted and left to the Monte-Carlo part.
+    idx, block = idle_block(W, locks)
+    plus = [[x for x, j in zip(r, idx) if j != 0] for r, i in zip(block, idx) if i != 0]
+    plus.sort(key=lambda r: max([j for j, x in enumerate(r) if x != 0], default=-1))
+    start, mc_legit = 0, False
+    for i, r in enumerate(plus):
+        reach = max([j for j, x in enumerate(r) if x != 0], default=-1)
+        if max(max([j for j, x in enumerate(q) if x != 0], default=-1) for q in plus[start : i + 1]) == i:
+            rows = [q[start : i + 1] for q in plus[start : i + 1]]
+            uniform = all(len({x for x in q if x != 0}) <= 1 for q in rows)
+            if len(rows) > 12 and not uniform:
+                mc_legit = True
+            start = i + 1
+    if mc_legit:
+        rec.case(key=None, nontrivial=False, classes=["large:non-uniform-block>12(Monte-Carlo-by-design)"])
+        return
     res = compare(rec, state, W, locks, c["kind"] == "int", 1e-9, "large", info)
     if res in ("unreachable", "all-busy"):
         rec.case(key=None, nontrivial=False, classes=["large:" + res])
